@@ -29,6 +29,11 @@ def jsonable(o):
     if isinstance(o, (list, tuple, set, frozenset)):
         return [jsonable(v) for v in o]
     if isinstance(o, np.ndarray):
+        if o.size > 20000:
+            # big volumes of the workloads are sparse: the non-zero voxels (at most 5000) identify the witness
+            nz = np.argwhere(o != 0)
+            return {"dtype": str(o.dtype), "shape": list(o.shape), "nonzero_total": int(len(nz)), "nonzero_coordinates": nz[:5000].tolist(),
+                    "nonzero_values": o[tuple(nz[:5000].T)].tolist() if len(nz) else []}
         return {"dtype": str(o.dtype), "shape": list(o.shape), "data": o.tolist()}
     if isinstance(o, np.generic):
         return jsonable(o.item())
